@@ -500,6 +500,11 @@ class MetricTranslator:
                     obl.append(Obligation("sqrt", l, unparse(node.left), line))
                 return (kind, l ** r)
             raise AnalysisError(f"{fi.name}: operator {type(node.op).__name__} outside the whitelist")
+        if isinstance(node, ast.BoolOp):
+            parts = [self._expr(v, env, ops, obl, fi, depth) for v in node.values]
+            if any(k != "bool" for k, _ in parts):
+                raise AnalysisError(f"{fi.name}: and/or on non-scalar conditions: {unparse(node)}")
+            return ("bool", (sp.And if isinstance(node.op, ast.And) else sp.Or)(*[e for _, e in parts]))
         if isinstance(node, ast.Compare) and len(node.ops) == 1:
             kl, l = self._expr(node.left, env, ops, obl, fi, depth)
             kr, r = self._expr(node.comparators[0], env, ops, obl, fi, depth)
@@ -545,6 +550,12 @@ class MetricTranslator:
                 return ("scalar", S(args[0][1]))
             if f in ("np.amax", "np.max", "numpy.amax") and len(args) == 1 and args[0][0] == "vec":
                 return ("scalar", MX(args[0][1]))
+            if f in ("np.any", "numpy.any", "np.all", "numpy.all") and len(args) == 1 and args[0][0] == "boolvec":
+                # any(c) is "the number of coordinates with c is not 0"; all(c) is "no coordinate with not c"
+                e = args[0][1]
+                if f.endswith("any"):
+                    return ("bool", sp.false if e == sp.false else sp.Ne(CNZ(e), 0))
+                return ("bool", sp.true if e == sp.true else sp.Eq(CNZ(sp.Not(e)), 0))
             if f in ("np.count_nonzero",) and len(args) == 1 and args[0][0] in ("boolvec", "vec"):
                 e = args[0][1]
                 if args[0][0] == "vec":
